@@ -33,6 +33,11 @@ class Check(HCheck):
         ops = [al.page(u, i % 2 == 0) for i, u in enumerate(l1)]
         ops += [al.page(l2[0]), al.create(l2[1]), al.addprefix(l1[1], 0), al.rule(l1[0], "path2"), al.links((l1[2], l2[0]), (l1[2], l2[0])), al.crawl((l1[0], (l1[1], l1[0])))]
         sp = [Space(Cfg("never"), ops, 5 if thorough else 4, name="long/never")]
+        # every stem-length shape (lengths {3,74,75,148,149,222}, up to 3 stems) inserted in one go
+        shapes = al.shape_lrus(3)
+        prep = [al.R0, (al.page(A + L.long_stem(75, b"a")),), (al.page(A + L.long_stem(149, b"a") + b"p:k|"),)]
+        sp.append(Space(Cfg("never"), [al.page(u, i % 2 == 0) for i, u in enumerate(shapes)], 1, roots=prep, name="shapes/one-insertion"))
+        sp.append(Space(Cfg("never"), [al.page(u) for u in al.shape_lrus(2)], 2, name="shapes/two-insertions"))
         cops = [al.page(Ax), al.page(Ax, True), al.page(Axy), al.pages((Ab, Aw)), al.create(C1), al.create(Ax), al.addprefix(Az, 0), al.rmprefix(A + b"p:q|"), al.rmprefix(Ax), al.rule(Ax, "path2"), al.rule(A, "path1"), al.LB_REPEAT, al.CB_KNOWN, al.move(Ab, 0), al.delete(0), al.REOPEN, al.clear("domain", {Ax: "path2"})]
         sp.append(Space(Cfg("domain"), cops, 4 if thorough else 3, roots=[al.R0, al.R1], name="core/domain"))
         return sp
